@@ -80,6 +80,33 @@ def gen_cases(rng, tier):
             add("illtyped", "//%s(%s)" % (rng.choice(["seq.concat", "seq.join", "str.lower", "str.repr", "bits.set", "bits.mask", "math.sin", "rel.union",
                                                        "fn.fix", "tuple", "dict", "array", "bytes", "eval.value", "encoding.json.decode", "encoding.json.encode",
                                                        "seq.repeat", "str.expand", "test.suite", "re.compile", "encoding.csv.decode", "encoding.yaml.decode"]), a))
+    # stream 1b: operations at the edges of a representation, and callbacks that fail part-way through a collection
+    SEQS = [("\"abc\"", 0, 3, "@char", "98"), ("(3\\\"abc\")", 3, 3, "@char", "98"), ("<<1, 2>>", 0, 2, "@byte", "2"), ("(3\\<<1, 2>>)", 3, 2, "@byte", "2"),
+            ("[1, 2, 3]", 0, 3, "@item", "2"), ("(2\\[1, 2])", 2, 2, "@item", "2"), ("[1, , 3]", 0, 3, "@item", "3"),
+            ("(\"abc\" without (@: 1, @char: 98))", 0, 3, "@char", "99"), ("{1: 2, 2: 3}", 1, 2, "@value", "3")]
+    COLLS = ["{(a: 1), (a: 2), (a: 3)}", "{|a, b| (1, 2), (2, 3), (3, 4), (4, 5)}", "[(a: 1), (a: 2), (a: 3), (a: 4)]", "{1, 2, 3, 4}",
+             "{1: (a: 1), 2: (a: 2), 3: (a: 3)}", "\"abcd\"", "{(a: 1), (a: (b: 2)), (a: 3), (a: 4)}", "{|a| (1), ((b: 1)), (3)}"]
+    FAILING = [".a.b", ".zz", ". + {}", ".a(1)", "//seq.concat(.)", ". < {}", "(.a.b: 1)", ".a -> .b", "cond . {(a: (b: x)): x}"]
+    for _ in range(260 if tier == "quick" else 5000):
+        k = rng.random()
+        if k < 0.6:
+            sq, off, ln, attr, val = rng.choice(SEQS)
+            i = rng.choice([off - 2, off - 1, off, off + 1, off + ln - 1, off + ln, off + ln + 1, off + ln + 7, -1, 0, 1 << 16, 1 << 62, -(1 << 62), 0.5])
+            at = rng.choice([attr, attr, attr, "@char", "@byte", "@item"])
+            v = rng.choice([val, val, "1", "97", "256", "-1", "1114112", "{}", "0.5"])
+            m = "(@: %s, %s: %s)" % (i, at, v)
+            form = rng.choice(["%s with %s", "%s without %s", "%s &~ {%s}", "%s & {%s}", "%s | {%s}", "%s (-) {%s}", "%s <: %s", "{%s} (<=) %s", "%s ++ {%s}"])
+            if form in ("%s <: %s", "{%s} (<=) %s"):
+                add("boundary", form % (m, sq))
+            else:
+                add("boundary", form % (sq, m))
+        elif k < 0.75:
+            sq, off, ln, attr, val = rng.choice(SEQS)
+            i = rng.choice([off - 1, off, off + ln - 1, off + ln, off + ln + 1, -1, 1 << 62, 0.5])
+            add("boundary", rng.choice(["%s(%s)", "%s(%s)?:0", "%s\\%s", "%s >> \\x x", "//seq.sub(%s, %s, 1)"][:3]) % ((sq, i) if rng.random() < 0.8 else (i, sq)))
+        else:
+            c, f = rng.choice(COLLS), rng.choice(FAILING)
+            add("boundary", rng.choice(["%s where %s", "%s => %s", "%s >> %s", "%s orderby %s", "%s rank (r: %s)", "%s :> %s"]) % (c, f))
     # stream 2: malformed source text
     n2 = 100 if tier == "quick" else 4000
     for _ in range(n2):
@@ -103,8 +130,12 @@ def signature(c, o):
     if o.get("slow_error_text"):
         return "hang:parse-error-text"
     if st == "panic":
+        if "makeslice" in (o.get("msg") or ""):
+            return "panic:makeslice"      # an allocation sized by an index span, wherever it is asked for
         return "panic:" + (o.get("site") or "unknown")
     if st == "crash":
+        if "out of memory" in (o.get("msg") or ""):
+            return "crash:out-of-memory"
         return "crash:" + (o.get("msg") or "")[:40]
     if st == "timeout":
         return "hang:" + ("malformed-source" if c["stream"] != "illtyped" else "evaluation")
@@ -123,7 +154,7 @@ def main(tier, seed, replay=None):
         for f in run.opened:        # committed witnesses are always re-run
             if f.get("witness"):
                 cases.append({"id": len(cases), "stream": "witness:" + f["sig"], "src": f["witness"]})
-    outs, _, _ = run_harness(vh, "eval", [{"id": c["id"], "src": c["src"], "budget_ms": 4000} for c in cases], stall=8, timeout=2400)
+    outs, _, _ = run_harness(vh, "eval", [{"id": c["id"], "src": c["src"], "budget_ms": 4000} for c in cases], stall=8, timeout=2400, env={"VERIF_MEM_LIMIT_GB": "12"})
     hist, sigs = {}, {}
     for c in cases:
         o = outs.get(c["id"]) or {"st": "missing"}
@@ -142,7 +173,7 @@ def main(tier, seed, replay=None):
     nontriv = len(set(c["src"] for c in cases if (outs.get(c["id"]) or {}).get("st") in ("ok", "err")))
     step = max(1, len(cases) // 8)
     run.cov.update({"evaluations": len(cases), "distinct_nontrivial": nontriv,
-                    "rule": "three streams through syntax.EvaluateExpr under recover() and a wall-clock watchdog (a wedged process is killed and restarted): (1) well-formed but ill-typed programs: every binary, comparison, unary and postfix operator, call, ?:, dot, nest, let/cond patterns and standard-library functions over operands of every kind and representation incl. functions, natives, @neg wrappers, huge/inf/nan numbers; (2) malformed source: token soup over the grammar's terminals, truncated/garbled well-formed literals, raw bytes; (3) the committed witness of every open finding; a failure signature is the panic site (package:function of the first arr-ai/arrai frame), 'crash' or 'hang'; distinct non-trivial = distinct sources ending in a value or an ordinary error",
+                    "rule": "three streams through syntax.EvaluateExpr under recover() and a wall-clock watchdog (a wedged process is killed and restarted): (1) well-formed but ill-typed programs: every binary, comparison, unary and postfix operator, call, ?:, dot, nest, let/cond patterns and standard-library functions over operands of every kind and representation incl. functions, natives, @neg wrappers, huge/inf/nan numbers; (1b) well-typed operations at the edges of a representation (with/without/set operators/membership/calls at indices just outside, at and just inside both ends of strings, byte arrays, arrays and dicts with and without offsets and holes, huge and fractional indices, out-of-range characters and bytes) and callbacks that fail part-way through a collection (where, =>, >>, orderby, rank, :>, >>> over relations, sets, arrays, dicts and strings of 3-4 members); (2) malformed source: token soup over the grammar's terminals, truncated/garbled well-formed literals, raw bytes; (3) the committed witness of every open finding; a failure signature is the panic site (package:function of the first arr-ai/arrai frame), 'crash' or 'hang'; distinct non-trivial = distinct sources ending in a value or an ordinary error",
                     "samples": [cases[i]["src"][:120] for i in range(0, len(cases), step)][:8],
                     "status_histogram": hist, "stream_histogram": streams, "failure_signatures": sigs, "exhaustive": False})
     run.assumptions = ["the host-level recover of CLI/shell/server is not exercised; the check calls syntax.EvaluateExpr directly"]
